@@ -53,6 +53,49 @@ type exec struct {
 	committed map[int]bool
 	tok, coin common.Address
 	sink      bool
+	gate      *gateApp
+	rep       *appsim.Stack // cold replica: same chain, a mempool that never saw a submission (pool ... replica=1)
+}
+
+// gateApp is the application as the mempool sees it (mempool.App): the real LinkApplication, except that the BASIC check of
+// one designated transaction pauses before it starts until the harness releases it.  That fixes one interleaving of
+// Mempool.AddTx (cache.Put done, CheckTx(BasicCheck) not finished) with the consensus goroutine's CheckBlock.
+type gateApp struct {
+	*app.LinkApplication
+	mu      sync.Mutex
+	armed   bool
+	hash    common.Hash
+	entered chan struct{}
+	release chan struct{}
+}
+
+func (g *gateApp) arm(h common.Hash) {
+	g.mu.Lock()
+	g.armed, g.hash, g.entered, g.release = true, h, make(chan struct{}), make(chan struct{})
+	g.mu.Unlock()
+}
+
+func (g *gateApp) disarm() {
+	g.mu.Lock()
+	g.armed = false
+	g.mu.Unlock()
+}
+
+func (g *gateApp) CheckTx(tx types.Tx, checkBasic bool) error {
+	if checkBasic {
+		g.mu.Lock()
+		hit := g.armed && tx.Hash() == g.hash
+		if hit {
+			g.armed = false
+		}
+		entered, release := g.entered, g.release
+		g.mu.Unlock()
+		if hit {
+			close(entered)
+			<-release
+		}
+	}
+	return g.LinkApplication.CheckTx(tx, checkBasic)
 }
 
 func argI(toks []string, k string, def int64) int64 {
@@ -94,6 +137,9 @@ func (e *exec) close() {
 	}
 	if e.s != nil {
 		e.s.Close()
+	}
+	if e.rep != nil {
+		e.rep.Close()
 	}
 }
 
@@ -253,7 +299,8 @@ func (e *exec) Exec(op string) string {
 			Tokens: map[common.Address]*big.Int{e.tok: units(argI(toks, "tbal", 1000))}}
 		o.Mempool = func(a *app.LinkApplication) types.Mempool {
 			mp := mempool.NewMempool(c, 0, nil)
-			mp.SetApp(a)
+			e.gate = &gateApp{LinkApplication: a}
+			mp.SetApp(e.gate)
 			e.mp = mp
 			return mp
 		}
@@ -262,6 +309,15 @@ func (e *exec) Exec(op string) string {
 			return "err " + err.Error()
 		}
 		e.s = s
+		if argI(toks, "replica", 0) == 1 {
+			ro := o
+			ro.Mempool = nil
+			r, err := appsim.NewStack(ro)
+			if err != nil {
+				return "err replica " + err.Error()
+			}
+			e.rep = r
+		}
 		return "ok " + e.committedLine()
 	}
 	if e.s == nil {
@@ -337,6 +393,21 @@ func (e *exec) Exec(op string) string {
 			}
 		}
 		tx, err := appsim.BuildUin(w, []*appsim.OwnedOut{&in}, dests, common.EmptyAddress, common.EmptyAddress)
+		if err == nil {
+			// alterations after construction (as appsim.ChainExec does): the basic check must refuse every one of them
+			switch t, _ := hx.Arg(toks, "tamper"); t {
+			case "outpk":
+				tx.RCTSig.OutPk[0].Mask[5] ^= 1
+			case "pseudo":
+				tx.RCTSig.P.PseudoOuts[0][5] ^= 1
+			case "fee":
+				tx.Fee = new(big.Int).Sub(tx.Fee, e.fee(1))
+			case "proof":
+				tx.RCTSig.P.Bulletproofs[0].T[3] ^= 1
+			case "sig":
+				tx.RCTSig.P.Ss[0].C[3] ^= 1
+			}
+		}
 		return e.submit(toks[0], -1, 0, tx, err, toks)
 	case "resub": // the same transaction object again
 		id := int(argI(toks, "id", 0))
@@ -389,6 +460,29 @@ func (e *exec) Exec(op string) string {
 		return ans
 	case "conc":
 		return e.conc(toks)
+	case "window":
+		// AddTx(tx) is started on its own goroutine and paused between cache.Put and the basic check; in that window the
+		// consensus goroutine validates a (foreign) block holding exactly that transaction, on this stack and on the cold replica
+		id := int(argI(toks, "id", 0))
+		if id < 0 || id >= len(e.txs) {
+			return "notx"
+		}
+		tx := e.txs[id]
+		e.gate.arm(tx.Hash())
+		done := make(chan error, 1)
+		go func() { done <- e.mp.AddTx("", tx) }()
+		var err error
+		var during, cold string
+		select {
+		case <-e.gate.entered:
+			during, cold = e.verdicts(tx)
+			close(e.gate.release)
+			err = <-done
+		case err = <-done: // refused before the basic check (duplicate): no window
+			e.gate.disarm()
+			during, cold = e.verdicts(tx)
+		}
+		return fmt.Sprintf("during=%s cold=%s add=%s %s", during, cold, addClass(err), e.dump())
 	}
 	return "bad-op"
 }
@@ -421,17 +515,65 @@ func (e *exec) touched(before view) int {
 	return len(senders)
 }
 
+// verdicts: CheckBlock on a block holding exactly tx, on this stack (whose mempool cache is what it is right now) and on
+// the cold replica.  Nothing is committed.
+func (e *exec) verdicts(tx types.Tx) (string, string) {
+	b, err := e.s.BlockOf(e.coin, types.Txs{tx})
+	if err != nil {
+		return "propose-" + appsim.ErrClass(err), "-"
+	}
+	ok, err := e.s.Validate(b)
+	during := fmt.Sprint(ok)
+	if err != nil {
+		during = appsim.ErrClass(err)
+	}
+	cold := "-"
+	if e.rep != nil {
+		if rb, err := appsim.Rewire(b); err == nil {
+			okr, err := e.rep.Validate(rb)
+			cold = fmt.Sprint(okr)
+			if err != nil {
+				cold = appsim.ErrClass(err)
+			}
+		}
+	}
+	return during, cold
+}
+
+// replicaSees runs the block through the cold replica: its verdict must be the one of this stack; an accepted block is
+// committed there too so that the two chains stay equal.
+func (e *exec) replicaSees(b *types.Block, accepted bool) string {
+	if e.rep == nil {
+		return ""
+	}
+	rb, err := appsim.Rewire(b)
+	if err != nil {
+		return " acceptance=rewire-failed"
+	}
+	okr, err := e.rep.Validate(rb)
+	if err != nil || okr != accepted {
+		return fmt.Sprintf(" acceptance=differs:warm=%v,cold=%v", accepted, okr)
+	}
+	if accepted {
+		if err := e.rep.Commit(rb); err != nil {
+			return " acceptance=cold-commit-failed"
+		}
+	}
+	return ""
+}
+
 func (e *exec) finish(b *types.Block) string {
 	ok, err := e.s.Validate(b)
 	if err != nil {
 		return "validate=" + appsim.ErrClass(err)
 	}
 	if !ok {
-		return "validate=false"
+		return "validate=false" + e.replicaSees(b, false)
 	}
 	if err := e.s.Commit(b); err != nil {
 		return "commit=" + appsim.ErrClass(err)
 	}
+	repl := e.replicaSees(b, true)
 	var out []int
 	for _, tx := range b.Data.Txs {
 		id, ok := e.byHash[tx.Hash()]
@@ -452,7 +594,7 @@ func (e *exec) finish(b *types.Block) string {
 			}
 		}
 	}
-	return fmt.Sprintf("h=%d txs=%s %s %s", b.Height, ids(out), e.committedLine(), e.dump())
+	return fmt.Sprintf("h=%d txs=%s %s %s%s", b.Height, ids(out), e.committedLine(), e.dump(), repl)
 }
 
 func (e *exec) markSpent(img lktypes.Key) {
